@@ -229,6 +229,15 @@ def main(tier):
                 src += r.choice([" + ", " - ", " * ", "+"]) + tkn
             vlines.append(f"custom L100000 {r.getrandbits(128):032x} {spec} {hx(PRE + src)}")
             vmeta.append(PRE + src)
+        # … and from a host that serves names through the overwrite result of its load hook
+        spec2 = "hookow:" + hx(_json.dumps({"力量": {"t": 0, "v": 60}, "敏捷": {"t": 0, "v": 45}}, ensure_ascii=False))
+        for _ in range(60 if tier == "thorough" else 25):
+            terms = [r.choice(["力量", "敏捷", "lv", "2d6", "3", "1d4", "力量"]) for _ in range(r.randint(2, 4))]
+            src = terms[0]
+            for tkn in terms[1:]:
+                src += r.choice([" + ", " - ", " * ", "+"]) + tkn
+            vlines.append(f"custom L100000 {r.getrandbits(128):032x} {spec2} {hx('lv = 7; ' + src)}")
+            vmeta.append("lv = 7; " + src)
 
         def split_top(text, ch):
             out_, depth, cur = [], 0, ""
@@ -279,7 +288,7 @@ def main(tier):
                         run.violation("detail:stripped-text-evaluates-differently", dict(rep, stripped=flat))
                 except Exception:
                     run.violation("detail:stripped-text-does-not-parse", dict(rep, stripped=flat))
-            elif "null" in flat:
+            elif "null" in flat or "NIL" in flat:
                 run.violation("detail:a-value-that-was-read-is-shown-as-null", dict(rep, stripped=flat))
             for n, content in annotations(det):
                 # (further comma-separated groups explain the inner rolls of a nested term: `7[(2d3)d4=1+2+3+1,2d3=4]`)
